@@ -8,31 +8,37 @@ EXTENDS WitnessCore, Json
 
 CONSTANTS Durable, MaxEvents
 VARIABLES published, stored, nev,
+          down,    \* logs whose server currently answers every request with an error (transient outage)
           evs      \* the environment's events so far (observation; hidden by VIEW in property runs)
-rvars == <<published, stored, nev, evs>>
+rvars == <<published, stored, nev, down, evs>>
 
 Lines == 1 + NWitKeys
 AsCP(b, n) == [b |-> CanonB(b, n), n |-> n, lines |-> Lines, ext |-> 0]
 
 RInit == /\ published = [l \in Logs |-> [b |-> 0, n |-> 1]]
          /\ stored = [l \in Logs |-> None]
-         /\ nev = 0 /\ evs = <<>>
+         /\ nev = 0 /\ evs = <<>> /\ down = {}
 
 Grow(l) == /\ nev < MaxEvents /\ published[l].n < MaxSize
            /\ \E n \in (published[l].n + 1)..MaxSize :
                  /\ published' = [published EXCEPT ![l] = [b |-> published[l].b, n |-> n]]
                  /\ evs' = Append(evs, [a |-> "grow", l |-> l, b |-> published[l].b, n |-> n])
-           /\ nev' = nev + 1 /\ UNCHANGED stored
+           /\ nev' = nev + 1 /\ UNCHANGED <<stored, down>>
 \* the log starts serving another history (same or larger size)
 Fork(l) == /\ nev < MaxEvents /\ published[l].b = 0
            /\ \E b \in 1..(NBranch-1), n \in published[l].n..MaxSize :
                  /\ published' = [published EXCEPT ![l] = [b |-> b, n |-> n]]
                  /\ evs' = Append(evs, [a |-> "fork", l |-> l, b |-> b, n |-> n])
-           /\ nev' = nev + 1 /\ UNCHANGED stored
+           /\ nev' = nev + 1 /\ UNCHANGED <<stored, down>>
 Restart == /\ nev < MaxEvents /\ nev' = nev + 1
            /\ stored' = IF Durable THEN stored ELSE [l \in Logs |-> None]
            /\ evs' = Append(evs, [a |-> "restart", l |-> "", b |-> 0, n |-> 0])
-           /\ UNCHANGED published
+           /\ UNCHANGED <<published, down>>
+\* the log's server fails every request for a while (feed cycles fail and are only logged: the feeder keeps polling), then recovers
+Outage(l) == /\ nev < MaxEvents /\ l \notin down /\ down' = down \cup {l} /\ nev' = nev + 1
+             /\ evs' = Append(evs, [a |-> "outage", l |-> l, b |-> 0, n |-> 0]) /\ UNCHANGED <<published, stored>>
+Recover(l) == /\ l \in down /\ down' = down \ {l}
+              /\ evs' = Append(evs, [a |-> "recover", l |-> l, b |-> 0, n |-> 0]) /\ UNCHANGED <<published, stored, nev>>
 
 \* one feed cycle: get latest, fetch proof from it, update; refused steps leave the witness where it was
 Poll(l) ==
@@ -42,18 +48,19 @@ Poll(l) ==
         pf == IF st # None /\ st.n >= 1 /\ st.n < p.n THEN Right(p.b, st.n, p.n) ELSE Empty
         req == [auth |-> "good", old |-> old, b |-> p.b, n |-> p.n, extra |-> 0, stale |-> 0, ext |-> 0, pf |-> pf]
         d == IF st # None /\ st.n > p.n THEN Refuse("Ahead", "nil") ELSE Decide(TRUE, st, req)
-    IN /\ stored' = IF d.write THEN [stored EXCEPT ![l] = d.new] ELSE stored
-       /\ UNCHANGED <<published, nev, evs>>
+    IN /\ l \notin down
+       /\ stored' = IF d.write THEN [stored EXCEPT ![l] = d.new] ELSE stored
+       /\ UNCHANGED <<published, nev, down, evs>>
 
-RNext == \E l \in Logs : Grow(l) \/ Fork(l) \/ Poll(l)
+RNext == \E l \in Logs : Grow(l) \/ Fork(l) \/ Poll(l) \/ Outage(l) \/ Recover(l)
 RNextR == RNext \/ Restart
-RSpec == RInit /\ [][RNextR]_rvars /\ \A l \in Logs : WF_rvars(Poll(l) /\ stored'[l] # stored[l])
+RSpec == RInit /\ [][RNextR]_rvars /\ \A l \in Logs : (SF_rvars(Poll(l) /\ stored'[l] # stored[l]) /\ WF_rvars(Recover(l)))
 
 \* the environment alone (generator of growth / fork / restart schedules)
-ENext == (\E l \in Logs : Grow(l) \/ Fork(l)) \/ Restart
+ENext == (\E l \in Logs : Grow(l) \/ Fork(l) \/ Outage(l) \/ Recover(l)) \/ Restart
 ESpec == RInit /\ [][ENext]_rvars
 EmitSched == nev = MaxEvents => PrintT("OMNI " \o ToJson([events |-> evs]))
-RView == <<published, stored, nev>>
+RView == <<published, stored, nev, down>>
 
 \* C14 safety: the served checkpoint never leaves the witnessed history
 StaysOnHistory == [][\A l \in Logs : stored[l] # None /\ stored'[l] # None => Extends(stored[l], stored'[l]) \/ SameTree(stored[l], stored'[l])]_rvars
